@@ -404,8 +404,9 @@ func runFingerprint(c *vh.Ctx, ids []tls.ClientHelloID) {
 			c.Count("fp-no-padded-capture")
 			continue
 		}
-		picks := []int{cand[0], cand[len(cand)-1], cand[c.Rng.Intn(len(cand))]}
+		picks := []int{cand[len(cand)-1], cand[c.Rng.Intn(len(cand))]}
 		if c.Tier != "quick" {
+			picks = append(picks, cand[0])
 			for i := 0; i < 12; i++ {
 				picks = append(picks, cand[c.Rng.Intn(len(cand))])
 			}
@@ -458,7 +459,7 @@ func fpOne(c *vh.Ctx, id tls.ClientHelloID, s int) {
 	}
 	for _, ds := range []int{0, 2, -1} {
 		s2 := s + ds
-		if s2 < 1 {
+		if s2 < 1 || (c.Tier == "quick" && ds < 0) {
 			continue
 		}
 		k2 := fmt.Sprintf("%s/re%d", key, s2)
